@@ -464,9 +464,6 @@ def _get_iso_8601_week(
         ordinal -= days_in_year(year)
         year += 1
 
-    fmt = "%Y-%j"
-    string = f"{year}-{ordinal}"
-
-    dt = datetime.datetime.strptime(string, fmt)
+    dt = datetime.date(year, 1, 1) + datetime.timedelta(days=ordinal - 1)
 
     return {"year": dt.year, "month": dt.month, "day": dt.day}
